@@ -18,11 +18,11 @@ ID = "C09"
 RULE = (
     "H: 15 queries mixing cacheable sub-expressions (root- and context-rooted queries, constants, functions of them, nested "
     "filters inside root paths) with per-node ones (current node, current key) x 2 documents that differ exactly in the cached "
-    "part x 2 filter contexts x {caching on, off}: every history of depth<=4 with caching on (3 with caching off; all depth-5 histories of one query chosen by VERIF_SEED; thorough 6, and 7 for 3 queries) over the letters "
+    "part x 2 filter contexts x {caching on, off}: every history of depth<=4 with caching on (3 with caching off; all depth-5 histories of one query chosen by VERIF_SEED; thorough 5 with caching and 4 without, and 6 for 3 queries) over the letters "
     "{open iterator on doc i, advance iterator j (<=3 live), findall(doc i), findall(doc i) under the other filter context, swap the two documents' contents in place, recompile, findall in the other caching mode}; every "
     "(HT: every history of depth<=3 (5) over {evaluate the JSON text of doc i, evaluate it as a file object, findall, open/advance one iterator}, the caller scribbling over everything a text evaluation returned); every observation equals a fresh compile evaluated once on a deep copy in a fresh non-caching environment; documents, filter "
-    "contexts and the compiled query's public surface unchanged; TASK: 6 coroutine harnesses x {caching on, off}, <=1 (3) "
-    "preemptions; THR: 4 two-thread harnesses, every schedule with <=1 (2) preemptions at call granularity, plus 200 free-running runs. "
+    "contexts and the compiled query's public surface unchanged; TASK: 6 coroutine harnesses x {caching on, off}, <=1 (thorough 3, or 2 with three tasks) "
+    "preemptions; THR: 4 two-thread harnesses, every schedule with <=1 (thorough 2 on the first harness) preemptions at call granularity, plus 200 free-running runs. "
     "state = distinct history or schedule; non-trivial = history advances an iterator after another evaluation started"
 )
 ASSUMPTIONS = [
@@ -64,8 +64,9 @@ def selftest():
 
 
 def bounds(tier, seed):
-    return {"queries": len(QUERIES), "history_depth": "caching on: 4; caching off: 3; all depth-5 histories of one query chosen by VERIF_SEED" if tier == "quick" else "6; 7 for 3 queries", "max_live_iterators": 3,
-            "task_preemptions": 1 if tier == "quick" else 3, "thread_preemptions": 1 if tier == "quick" else 2}
+    return {"queries": len(QUERIES), "history_depth": "caching on: 4; caching off: 3; all depth-5 histories of one query chosen by VERIF_SEED" if tier == "quick" else "caching on: 5; caching off: 4; 6 for 3 queries", "max_live_iterators": 3,
+            "task_preemptions": 1 if tier == "quick" else "3 (two tasks) / 2 (three tasks)",
+            "thread_preemptions": 1 if tier == "quick" else "2 on the first harness, 1 on the others"}
 
 
 def letters(n_live):
@@ -89,7 +90,7 @@ def plan(tier, seed):
             if tier == "quick":
                 depth = 4 if caching else 3
             else:
-                depth = 6
+                depth = 5 if caching else 4
             for first in range(N_FIRST):
                 shards.append(("H", qi, caching, first, depth))
     if tier == "quick":
@@ -99,17 +100,20 @@ def plan(tier, seed):
             for second in range(11):
                 shards.append(("H6", qi, True, first, second, 5))
     else:
-        for qi in (0, 5, 9):
+        for qi in (0, 5, 14):
             for first in range(N_FIRST):
                 for second in range(11):
-                    shards.append(("H6", qi, True, first, second, 7))
+                    shards.append(("H6", qi, True, first, second, 6))
     for qi in range(len(QUERIES)):
         shards.append(("HT", qi, 3 if tier == "quick" else 5))
-    for hi in range(len(task_harnesses())):
+    for hi, h in enumerate(task_harnesses()):
         for caching in (True, False):
-            shards.append(("TASK", hi, caching, 1 if tier == "quick" else 3))
+            # thorough: 3 preemptions for two tasks, 2 for three tasks (measured: 3 on three tasks is a 15-minute shard)
+            shards.append(("TASK", hi, caching, 1 if tier == "quick" else (3 if len(h) == 2 else 2)))
     for hi in range(len(thread_harnesses())):
-        shards.append(("THR", hi, 1 if tier == "quick" else 2))
+        # thorough: 2 preemptions on the first harness only (every call inside jsonpath is a scheduling point: two
+        # preemptions on the larger harnesses are 20-minute shards)
+        shards.append(("THR", hi, 1 if tier == "quick" or hi > 0 else 2))
     shards.append(("FREE", 200 if tier == "quick" else 2000))
     # long sequential shards first, so that they do not become the tail of the run
     order = {"THR": 0, "FREE": 1, "TASK": 2}
